@@ -18,7 +18,7 @@ def const(tree, name, default=''):
 MORE = {
  'C09': '(R09.9 = R17.8) f is evaluated at the mapped points iff f_physical.',
  'C06': '(R06.G/G12) a double sum restricted to a triangle with doubled off-diagonal weight requires a symmetric summand.',
- 'C05': '(R05.G/G2) a memo keyed by attributes of its inputs (degree, dof count) while the value is computed from the whole knot vectors. (R05.7) the level ranges of prolongate_to run to the finest level of the fine space and do not depend on the disparity.',
+ 'C05': '(R05.G/G2) a memo keyed by attributes of its inputs (degree, dof count) while the value is computed from the whole knot vectors. (R05.7) the level ranges of prolongate_to run to the finest level of the fine space and do not depend on the disparity. (R05.8) the inverse one-level truncations in the THB virtual-hierarchy prolongators are composed in the order of hb_to_thb (known finding on the current tree).',
  'C04': '(R04.G/G11) indices are scaled between levels by 2**(level difference), never by 2*(level difference).',
  'C03': '(R03.11 = R04.6) the disparity the level-wise assembly relies on is established by the marking closure started on every level. (R03.12) the level spread assemble_matrix searches is justified by every marking mode refine() admits (T-admissible marking bounds the truncated functions only).',
  'C07': "(R07.4) component order of the linearised Hessian; the caller's component index is never applied to the weight column; (R07.5) the fixed coordinate of a boundary function is inserted at position len(x) - axis. (R07.2) views handed out by a method of self through a tuple result are tracked to in-place writes in the caller; (R07.6) the corner weights of every circular arc depend on the angle.",
